@@ -295,3 +295,33 @@ def show_image(img, limit=12):
     rs = image_runs(img)
     s = " ".join("%x:%s" % (a, b.hex()) for a, b in rs[:limit])
     return s + (" …" if len(rs) > limit else "")
+
+
+def uf2_lenient(data):
+    """UF2 as naken_asm writes it: blocks grouped by family id; the program's family is the one whose blocks come last.
+    -> ({}, info) with info['image'] (payload of the program family), info['foreign'] (other families' payload bytes)"""
+    if len(data) % 512 or not data:
+        raise FormatError("size %d is not a positive multiple of 512" % len(data))
+    blocks = []
+    for i in range(0, len(data), 512):
+        b = data[i:i + 512]
+        m0, m1, flags, addr, n, no, total, fam = struct.unpack("<8I", b[:32])
+        mend, = struct.unpack("<I", b[508:])
+        if (m0, m1, mend) != (0x0A324655, 0x9E5D5157, 0x0AB16F30):
+            raise FormatError("block %d: bad magic" % (i // 512))
+        if n > 476:
+            raise FormatError("block %d: payload size %d" % (i // 512, n))
+        blocks.append((flags, addr, n, no, total, fam, b[32:32 + n]))
+    prog = blocks[-1][5]
+    mine = [b for b in blocks if b[5] == prog]
+    for i, b in enumerate(mine):
+        if b[3] != i or b[4] != len(mine):
+            raise FormatError("program family: block %d is numbered %d of %d (expected %d of %d)" % (i, b[3], b[4], i, len(mine)))
+    img = {}
+    for b in mine:
+        for i, v in enumerate(b[6]):
+            if b[1] + i in img:
+                raise FormatError("address 0x%x in two blocks" % (b[1] + i))
+            img[b[1] + i] = v
+    foreign = sum(b[2] for b in blocks if b[5] != prog)
+    return {}, {"image": img, "foreign": foreign, "families": sorted({b[5] for b in blocks})}
